@@ -6,6 +6,7 @@ import re
 from typing import Dict, List, Optional, Tuple
 
 from ..core import AnalysisError, FunctionInfo, Project, const_value, dotted, is_const, kwarg, norm, param_names, walk_no_nested
+from .. import sym
 from ..util import assignments, canon, count_negations, returns_of, stmt_text
 from . import c01
 
@@ -64,64 +65,129 @@ def r1(ctx):
 
 
 def _accumulate_summary(fn: ast.FunctionDef) -> Optional[Dict[str, object]]:
-    """Summary of the add/sub combinator idiom (see DESIGN appendix B.2)."""
+    """Summary of the add/sub combinator (see DESIGN appendix B.2), read off the symbolic summary of the function:
+    for every element v of the left operand the result receives v (+|-) right[v] when v is also on the right and v
+    otherwise; afterwards the right-only elements are added, negated or not."""
     params = [p for p in param_names(fn)]
     if len(params) != 2:
         return None
     L, R = params
-    body = [s for s in fn.body if not (isinstance(s, ast.Expr) and isinstance(s.value, ast.Constant))]
-    rekey = {L: False, R: False}
-    acc = None
-    loop = None
-    upd = None
-    ret = None
-    for s in body:
-        t = norm(s)
-        m = re.fullmatch(r"(\w+) = \{(\w+): \2 for \2 in \1\}", t)
-        if m and m.group(1) in rekey:
-            rekey[m.group(1)] = True
-            continue
-        m = re.fullmatch(r"(\w+) = set\(\)", t)
-        if m:
-            acc = m.group(1)
-            continue
-        if isinstance(s, ast.For):
-            loop = s
-            continue
-        if isinstance(s, ast.Expr) and isinstance(s.value, ast.Call) and isinstance(s.value.func, ast.Attribute) and s.value.func.attr == "update":
-            upd = s.value
-            continue
-        if isinstance(s, ast.Return):
-            ret = s
-            continue
+    try:
+        outs = sym.outcomes(fn)
+    except sym.Unmodelled:
         return None
-    if not (all(rekey.values()) and acc and loop is not None and upd is not None and ret is not None and norm(ret.value) == acc):
+    lps = sym.loops_of(outs)
+    if not lps:
+        return _accumulate_summary_comprehension(fn, L, R, outs)
+    if len(lps) != 1 or not isinstance(lps[0]._sym_orig, ast.For) or not isinstance(lps[0]._sym_orig.target, ast.Name):
         return None
-    if norm(loop.iter) != L or not isinstance(loop.target, ast.Name):
+    lp = lps[0]
+    v = lp._sym_orig.target.id
+    if sym.pm_any(["{VAR_a: VAR_a for VAR_a in %s}" % L, L, "set(%s)" % L, "list(%s)" % L], lp._sym_head) is None:
         return None
-    v = loop.target.id
-    lb = loop.body
-    if len(lb) != 2 or not isinstance(lb[0], ast.If) or norm(lb[0].test) != f"{v} in {R}" or lb[0].orelse or len(lb[0].body) != 1:
+    # the membership test against the right operand
+    RM = None
+    for o in outs:
+        for c, _pol in o.conds:
+            b = sym.pm(f"{v} in ANY_r", c)
+            if b is not None and sym.pm_any(["{VAR_b: VAR_b for VAR_b in %s}" % R, R], ast.parse(b["ANY_r"], mode="eval").body) is not None:
+                RM = b["ANY_r"]
+    if RM is None:
+        # the test may live inside a conditional expression of the added value
+        for _k, effs, _env, _o in sym.iteration_effects(outs, lp, {}):
+            for e in effs:
+                for n in ast.walk(e):
+                    if isinstance(n, ast.IfExp):
+                        for cand in (n.test, sym.as_test(sym.negate(n.test))):
+                            b = sym.pm(f"{v} in ANY_r", cand)
+                            if b is not None:
+                                RM = b["ANY_r"]
+    if RM is None:
         return None
-    m = re.fullmatch(r"%s = %s ([+-]) %s\[%s\]" % (v, v, R, v), norm(lb[0].body[0]))
-    if not m or norm(lb[1]) != f"{acc}.add({v})":
+    atom = f"{v} in {RM}"
+    both_it = sym.iteration_effects(outs, lp, {atom: True})
+    left_it = sym.iteration_effects(outs, lp, {atom: False})
+    if len(both_it) != 1 or len(left_it) != 1 or len(both_it[0][1]) != 1 or len(left_it[0][1]) != 1:
         return None
-    both = (+1, +1 if m.group(1) == "+" else -1)
-    if norm(upd.func.value) != acc or len(upd.args) != 1:
+    bb = sym.pm_any([f"VAR_acc.add({v} + ANY_rm[{v}])"], both_it[0][1][0])
+    sign_both = +1
+    if bb is None:
+        bb = sym.pm_any([f"VAR_acc.add({v} - ANY_rm[{v}])"], both_it[0][1][0])
+        sign_both = -1
+    if bb is None:
         return None
-    a = upd.args[0]
-    sign = +1
-    if isinstance(a, ast.Call) and dotted(a.func) == "negate_terms" and len(a.args) == 1:
-        sign, a = -1, a.args[0]
-    if isinstance(a, ast.SetComp):
-        g = a.generators[0]
-        w = g.target.id if isinstance(g.target, ast.Name) else "?"
-        elt = a.elt
-        if isinstance(elt, ast.UnaryOp) and isinstance(elt.op, ast.USub):
-            sign, elt = -sign, elt.operand
-        if norm(elt) == w and norm(g.iter) == R and len(g.ifs) == 1 and norm(g.ifs[0]) == f"{w} not in {acc}":
-            return {"both": both, "left_only": +1, "right_only": sign}
-    return None
+    acc = bb["VAR_acc"]
+    if sym.pm(f"{acc}.add({v})", left_it[0][1][0]) is None:
+        return None
+    fin = [o for o in outs if not o.loops and o.kind == "return"]
+    if len(fin) != 1 or norm(fin[0].value) != acc:
+        return None
+    after = []
+    seen_loop = False
+    for e in fin[0].effects:
+        if isinstance(e, (ast.For, ast.While)):
+            seen_loop = True
+        elif seen_loop:
+            after.append(e)
+    if len(after) != 1:
+        return None
+    RIGHT = "{VAR_w for VAR_w in ANY_r if VAR_w not in %s}" % acc
+    sign = None
+    if sym.pm(f"{acc}.update({RIGHT})", after[0]) is not None:
+        sign = +1
+    elif sym.pm(f"{acc}.update(negate_terms({RIGHT}))", after[0]) is not None or \
+            sym.pm("%s.update({-VAR_w for VAR_w in ANY_r if VAR_w not in %s})" % (acc, acc), after[0]) is not None:
+        sign = -1
+    if sign is None:
+        return None
+    return {"both": (1, sign_both), "left_only": +1, "right_only": sign}
+
+
+def _accumulate_summary_comprehension(fn, L, R, outs):
+    """The same combinator written as  acc = {<v (+|-) right[v] if v in right else v> for v in left}; acc.update(<right-only>)."""
+    env = {}
+    acc = comp = None
+    for st in fn.body:
+        if isinstance(st, ast.Assign) and len(st.targets) == 1 and isinstance(st.targets[0], ast.Name):
+            v_ = sym.subst(st.value, env)
+            if isinstance(v_, ast.SetComp) and len(v_.generators) == 1 and isinstance(v_.generators[0].target, ast.Name) and not v_.generators[0].ifs:
+                acc, comp = st.targets[0].id, v_
+            env[st.targets[0].id] = v_
+    if comp is None or sym.pm_any(["{VAR_a: VAR_a for VAR_a in %s}" % L, L], comp.generators[0].iter) is None:
+        return None
+    v = comp.generators[0].target.id
+    tests = [n.test for n in ast.walk(comp.elt) if isinstance(n, ast.IfExp)]
+    RM = None
+    for t in tests:
+        for cand in (t, sym.as_test(sym.negate(t))):
+            b = sym.pm(f"{v} in ANY_r", cand)
+            if b is not None and sym.pm_any(["{VAR_b: VAR_b for VAR_b in %s}" % R, R], ast.parse(b["ANY_r"], mode="eval").body) is not None:
+                RM = b["ANY_r"]
+    if RM is None:
+        return None
+    atom = f"{v} in {RM}"
+    both = sym.simplify(comp.elt, {atom: True})
+    left = sym.simplify(comp.elt, {atom: False})
+    if norm(left) != v:
+        return None
+    if sym.pm(f"{v} + ANY_rm[{v}]", both) is not None:
+        sb = +1
+    elif sym.pm(f"{v} - ANY_rm[{v}]", both) is not None:
+        sb = -1
+    else:
+        return None
+    fin = [o for o in outs if o.kind == "return"]
+    if len(fin) != 1 or norm(fin[0].value) != acc or len(fin[0].effects) != 1:
+        return None
+    RIGHT = "{VAR_w for VAR_w in ANY_r if VAR_w not in %s}" % acc
+    e = fin[0].effects[0]
+    if sym.pm(f"{acc}.update({RIGHT})", e) is not None:
+        sign = +1
+    elif sym.pm(f"{acc}.update(negate_terms({RIGHT}))", e) is not None or sym.pm("%s.update({-VAR_w for VAR_w in ANY_r if VAR_w not in %s})" % (acc, acc), e) is not None:
+        sign = -1
+    else:
+        return None
+    return {"both": (1, sb), "left_only": +1, "right_only": sign}
 
 
 def r2(ctx):
@@ -134,22 +200,65 @@ def r2(ctx):
         s = _accumulate_summary(g.node)
         ctx.check(s == w, "C16.R2", f"{name}: multipliers per branch class are {w}", g.where, ctx.construct(g, text="sign summary"),
                   f"summary is {s} (None = idiom not recognised); expected {w}: an element present on one side only, or on both, would get the wrong sign")
-    CANON = {
-        "negate_terms": "def f(v0): return {-v1 for v1 in v0}",
-        "mul_term": "def f(v0, v1): if v0.factor == 1: return ScaledFactor(v1.factor, scale=v0.scale * v1.scale) if v1.factor == 1: return ScaledFactor(v0.factor, scale=v0.scale * v1.scale) "
-                    "raise RuntimeError('Only one non-scalar factor can be involved in a linear constraint multiplication.')",
-        "div_term": "def f(v0, v1): if v1.factor == 1: return ScaledFactor(v0.factor, scale=v0.scale / v1.scale) "
-                    "raise RuntimeError('The right-hand operand must be a scalar in linear constraint division operations.')",
-        "mul_terms": "def f(v0, v1): v0 = {v2: v2 for v2 in v0} v1 = {v2: v2 for v2 in v1} v3: T = set() for v4, v5 in itertools.product(v0, v1): v3 = add_terms(v3, {mul_term(v4, v5)}) return v3",
-        "div_terms": "def f(v0, v1): v0 = {v2: v2 for v2 in v0} v1 = {v2: v2 for v2 in v1} v3: T = set() for v4, v5 in itertools.product(v0, v1): v3 = add_terms(v3, {div_term(v4, v5)}) return v3",
-        "join_tuples": "def f(v0, v1): if not isinstance(v0, tuple): v0 = (v0,) if not isinstance(v1, tuple): v1 = (v1,) return v0 + v1",
+    from ..expect import contains
+    SKEL = {
+        "negate_terms": """
+            def negate_terms(terms):
+                return {-term for term in terms}
+        """,
+        "mul_term": """
+            def mul_term(term_left, term_right):
+                if term_left.factor == 1:
+                    return ScaledFactor(term_right.factor, scale=term_left.scale * term_right.scale)
+                if term_right.factor == 1:
+                    return ScaledFactor(term_left.factor, scale=term_left.scale * term_right.scale)
+                raise RuntimeError("")
+        """,
+        "div_term": """
+            def div_term(term_left, term_right):
+                if term_right.factor == 1:
+                    return ScaledFactor(term_left.factor, scale=term_left.scale / term_right.scale)
+                raise RuntimeError("")
+        """,
+        "mul_terms": """
+            def mul_terms(terms_left, terms_right):
+                terms_left = {term: term for term in terms_left}
+                terms_right = {term: term for term in terms_right}
+                terms = set()
+                for term_left, term_right in itertools.product(terms_left, terms_right):
+                    terms = add_terms(terms, {mul_term(term_left, term_right)})
+                return terms
+        """,
+        "div_terms": """
+            def div_terms(terms_left, terms_right):
+                terms_left = {term: term for term in terms_left}
+                terms_right = {term: term for term in terms_right}
+                terms = set()
+                for term_left, term_right in itertools.product(terms_left, terms_right):
+                    terms = add_terms(terms, {div_term(term_left, term_right)})
+                return terms
+        """,
+        "join_tuples": """
+            def join_tuples(lhs, rhs):
+                if not isinstance(lhs, tuple):
+                    lhs = (lhs,)
+                if not isinstance(rhs, tuple):
+                    rhs = (rhs,)
+                return lhs + rhs
+        """,
     }
-    for name, w in CANON.items():
+    for name, w in SKEL.items():
         g = f.locals_named(name)
         ctx.look()
-        got = _relax_messages(canon(g.node))
-        ctx.check(got == _relax_messages(w), "C16.R2", f"{name} has its documented denotation", g.where, ctx.construct(g, text="denotation"),
-                  f"normal form is `{got[:200]}`; expected `{_relax_messages(w)[:200]}`")
+        # the skeleton's parameter names are those of the function as written today; renaming a parameter is harmless
+        pw = param_names(ast.parse(__import__("textwrap").dedent(w)).body[0])
+        pg = param_names(g.node)
+        for a_, b2 in zip(pw, pg):
+            w = re.sub(r"\b%s\b" % re.escape(a_), b2, w) if a_ != b2 else w
+        ok, why = contains(P, g, w)
+        extra = sum(1 for n in ast.walk(g.node) if isinstance(n, (ast.Return, ast.Raise))) - sum(1 for n in ast.walk(ast.parse(__import__("textwrap").dedent(w))) if isinstance(n, (ast.Return, ast.Raise)))
+        ctx.check(ok and extra <= 0, "C16.R2", f"{name} has its documented denotation", g.where, ctx.construct(g, text="denotation"),
+                  f"{why or 'additional ways of returning were added'}")
     _, recs = c01.records(P, OPS)
     LAM = {("=", 2): "lambda v0, v1: add_terms(v0, negate_terms(v1))", ("+", 2): "lambda *v0: functools.reduce(add_terms, v0)",
            ("-", 2): "lambda v0, v1: sub_terms(v0, v1)", ("+", 1): "lambda v0: v0", ("-", 1): "lambda v0: negate_terms(v0)",
@@ -168,17 +277,30 @@ def r2(ctx):
     for m, w in (("__add__", "ScaledFactor(self.factor, scale=self.scale + other.scale)"), ("__sub__", "ScaledFactor(self.factor, scale=self.scale - other.scale)"),
                  ("__neg__", "ScaledFactor(self.factor, scale=-self.scale)")):
         g = SF.methods[m]
-        rets = [norm(r.value) for r in returns_of(g.node) if norm(r.value) != "NotImplemented"]
+        try:
+            go = sym.outcomes(g.node)
+        except sym.Unmodelled:
+            go = []
+        gp = param_names(g.node)
+        facts = {f"isinstance({gp[1]}, ScaledFactor)": True} if len(gp) > 1 else {}
+        rets = [norm(v) for _k, v, _e in sym.eval_under(go, facts, kinds=("return",)) if v is not None and norm(v) != "NotImplemented"]
+        w = w.replace("other", gp[1]) if len(gp) > 1 else w
         ctx.check(rets == [w], "C16.R2", f"ScaledFactor.{m} combines the scales and keeps the factor", g.where, ctx.construct(g, text="scale arithmetic"),
                   f"returns {rets}; expected `{w}`")
     from .c03 import eqhash
     eqhash(ctx, "C16.R2", MOD + ".ScaledFactor", ["factor"], excluded=["scale"])
     tk = P.method(MOD + ".ConstraintToken", "to_terms")
-    t = norm(tk.node)
-    ok = "if self.kind is Token.Kind.VALUE:" in t and "factor = ast.literal_eval(self.token)" in t and "return {ScaledFactor(1, scale=factor)}" in t \
-        and "return {ScaledFactor(self.to_factor())}" in t and "isinstance(factor, (int, float))" in t
+    ok, why = contains(P, tk, """
+        def to_terms(self, *, context=None):
+            if self.kind is Token.Kind.VALUE:
+                factor = ast.literal_eval(self.token)
+                if isinstance(factor, (int, float)):
+                    return {ScaledFactor(1, scale=factor)}
+                raise exc_for_token(self, message="")
+            return {ScaledFactor(self.to_factor())}
+    """)
     ctx.check(ok, "C16.R2", "numeric literals become constants (factor 1, scale = value), names become unit-scaled factors", tk.where, ctx.construct(tk, text="leaf terms"),
-              "ConstraintToken.to_terms changed shape")
+              f"ConstraintToken.to_terms: {why}")
 
 
 def _relax_messages(s: str) -> str:
@@ -187,42 +309,82 @@ def _relax_messages(s: str) -> str:
 
 def r3(ctx):
     P = ctx.project
+    from ..expect import contains, contains_any
     gm = P.method(MOD + ".LinearConstraintParser", "get_matrix")
-    fn = gm.node
-    outer = [n for n in walk_no_nested(fn) if isinstance(n, ast.For)]
     ctx.look(4)
-    if not outer:
-        raise AnalysisError("C16.R3: row loop of get_matrix not found")
-    lp = outer[0]
-    inner = [n for n in lp.body if isinstance(n, ast.For)]
-    ok = len(inner) == 1 and norm(inner[0].iter) == norm(lp.target) and norm(lp.iter) == "constraints"
-    sf = inner[0].target.id if ok and isinstance(inner[0].target, ast.Name) else "?"
-    br = inner[0].body[0] if ok and inner[0].body and isinstance(inner[0].body[0], ast.If) else None
-    ok_const = br is not None and norm(br.test) == f"{sf}.factor == 1" and len(br.body) == 1 and norm(br.body[0]) == f"constant += {sf}.scale"
-    ok_vec = br is not None and len(br.orelse) == 1 and re.fullmatch(r"vector \+= %s\.scale \* col_vectors\[(cast\(Factor, )?%s\.factor\)?\.expr\]" % (sf, sf), norm(br.orelse[0])) is not None
-    ctx.check(ok and ok_const and ok_vec, "C16.R3", "each constant element accumulates +scale into the constant, each variable element +scale·e_var into the row",
-              gm.module.line(lp), ctx.construct(gm, text="row accumulation"),
-              f"inner branch: `{stmt_text(br, 120) if br is not None else None}`")
-    tail = [norm(s) for s in lp.body if not isinstance(s, ast.For)]
-    ok = "matrix.append(vector)" in tail and "constants.append(-constant)" in tail and "vector = numpy.zeros(len(self.variable_names))" in tail and \
-        any(t in ("constant: float = 0", "constant = 0") for t in tail)
-    ctx.check(ok, "C16.R3", "one row per constraint in order; b receives −constant (so that A·x − b = lhs − rhs)", gm.module.line(lp), ctx.construct(gm, text="row emit"),
-              f"row loop statements: {tail}")
-    t = norm(fn)
-    ok = "col_vectors = dict(zip(self.variable_names, numpy.eye(len(self.variable_names))))" in t
-    ctx.check(ok, "C16.R3", "column i of A belongs to variable_names[i]", gm.where, ctx.construct(gm, text="col_vectors"), "unit vectors must be zipped with variable_names in order")
-    ok = "if not isinstance(constraints, tuple):" in t and "constraints = (constraints,)" in t and "return (numpy.array(matrix), numpy.array(constants))" in t
-    ctx.check(ok, "C16.R3", "a single constraint is one row; the result is (A, b)", gm.where, ctx.construct(gm, text="result"), "get_matrix result shape changed")
+    ROW = """
+        def get_matrix(self, formula):
+            for constraint in constraints:
+                vector = numpy.zeros(len(self.variable_names))
+                constant = 0
+                for scaled_factor in constraint:
+                    if scaled_factor.factor == 1:
+                        constant += scaled_factor.scale
+                    else:
+                        vector += scaled_factor.scale * col_vectors[%s]
+                matrix.append(vector)
+                constants.append(-constant)
+            ...
+    """
+    ok, why = contains_any(P, gm, [ROW % "scaled_factor.factor.expr", ROW % "cast(Factor, scaled_factor.factor).expr"])
+    ctx.check(ok, "C16.R3", "each constant element accumulates +scale into the constant, each variable element +scale·e_var into the row",
+              gm.where, ctx.construct(gm, text="row accumulation"), f"row accumulation: {why}")
+    ok, why = contains(P, gm, """
+        def get_matrix(self, formula):
+            matrix = []
+            constants = []
+            for constraint in constraints:
+                vector = numpy.zeros(len(self.variable_names))
+                constant = 0
+                ...
+                matrix.append(vector)
+                constants.append(-constant)
+            return numpy.array(matrix), numpy.array(constants)
+    """)
+    ctx.check(ok, "C16.R3", "one row per constraint in order; b receives −constant (so that A·x − b = lhs − rhs)", gm.where, ctx.construct(gm, text="row emit"),
+              f"row emission: {why}")
+    ok, why = contains(P, gm, """
+        def get_matrix(self, formula):
+            col_vectors = dict(zip(self.variable_names, numpy.eye(len(self.variable_names))))
+            ...
+            for constraint in constraints:
+                ...
+            ...
+    """)
+    ctx.check(ok, "C16.R3", "column i of A belongs to variable_names[i]", gm.where, ctx.construct(gm, text="col_vectors"), f"unit vectors must be zipped with variable_names in order: {why}")
+    ok, why = contains(P, gm, """
+        def get_matrix(self, formula):
+            if not isinstance(constraints, tuple):
+                constraints = (constraints,)
+            ...
+            for constraint in constraints:
+                ...
+            return numpy.array(matrix), numpy.array(constants)
+    """)
+    ctx.check(ok, "C16.R3", "a single constraint is one row; the result is (A, b)", gm.where, ctx.construct(gm, text="result"), f"get_matrix result shape: {why}")
     fs = P.method(MOD + ".LinearConstraints", "from_spec")
     t = norm(fs.node)
-    ok = "spec = ','.join(spec)" in t
+    ok = any(sym.pm_any(["spec = ','.join(spec)", "spec = ','.join(spec) if isinstance(spec, list) else spec"], n) is not None for n in ast.walk(fs.node))
     ctx.check(ok, "C16.R3", "a list of constraint strings is joined with ','", fs.where, ctx.construct(fs, text="list join"), "list specs must be joined with ','")
-    ok = "constants.append(values + numpy.array(constant))" in t and "matrices.append(matrix)" in t and "for key, constant in spec.items():" in t.replace("(key, constant)", "key, constant") \
-        and "return cls(numpy.vstack(matrices), numpy.hstack(constants), variable_names=variable_names)" in t
+    ok, why = contains(P, fs, """
+        def from_spec(cls, spec, variable_names=None):
+            matrices, constants = [], []
+            for key, constant in spec.items():
+                matrix, values = LinearConstraintParser(variable_names=variable_names).get_matrix(key)
+                matrices.append(matrix)
+                constants.append(values + numpy.array(constant))
+            return cls(numpy.vstack(matrices), numpy.hstack(constants), variable_names=variable_names)
+    """)
     ctx.check(ok, "C16.R3", "a mapping spec adds the mapped value to the parsed b, rows stacked in mapping order", fs.where, ctx.construct(fs, text="mapping"),
-              "mapping specs: b must be parsed b + mapped value")
+              f"mapping specs: b must be parsed b + mapped value: {why}")
     gt = P.method(MOD + ".LinearConstraintParser", "get_tokens")
-    ok = "[ConstraintToken.for_token(token) for token in tokenize(formula)]" in norm(gt.node)
+    c = None
+    try:
+        rr = [o for o in sym.outcomes(gt.node) if o.kind == "return"]
+        c = rr[0].value if len(rr) == 1 else None
+    except sym.Unmodelled:
+        pass
+    ok = sym.pm_any(["[ConstraintToken.for_token(VAR_t) for VAR_t in tokenize(formula)]", "list(map(ConstraintToken.for_token, tokenize(formula)))"], c) is not None
     ctx.check(ok, "C16.R3", "constraint strings are lexed with the shared tokenizer", gt.where, ctx.construct(gt, text="tokens"), "get_tokens changed")
 
 
